@@ -9,6 +9,7 @@ def allOps : List (String × (V → R V)) :=
   ++ wrappersOps
   ++ replayOps
   ++ batchingOps
+  ++ onPolicyOps
 
 def dispatch (op : String) (a : V) : R V :=
   match allOps.find? (·.1 == op) with
